@@ -168,7 +168,7 @@ def run_factory(c: Check, func_path: str, *const_args):
 
 
 def check_first_error_wins(c: Check, rule: str, fd: FuncDef, is_elem_call, iter_attr: Optional[str] = None,
-                           min_paths: int = 4) -> None:
+                           min_paths: int = 4, per_element: int = 1) -> None:
     """FOLD "first non-None wins": the function loops over a sequence, calls an optional-error function per
     element (is_elem_call(callee_def, call_node, callee_value)), returns the first non-None result at once and
     None when every element succeeded; elements are visited in sequence order."""
@@ -186,9 +186,11 @@ def check_first_error_wins(c: Check, rule: str, fd: FuncDef, is_elem_call, iter_
         key = '%s/path/%s' % (fd.key.split(':')[-1], '-'.join(labs) or 'empty')
         # every element that is iterated is checked (no element is skipped)
         iters = len([e for e in p.trace if e.kind == 'loop-iter' and e.func is fd])
-        c.expect(iters == len(labs), rule, fd.key.split(':')[-1] + '/every-element-checked',
-                 '%d elements are iterated but %d are checked on a path: some element is skipped without being '
-                 'checked' % (iters, len(labs)), fd.loc())
+        # per_element checks are made of every element (all of them unless one of them reports an error)
+        full = len(labs) == iters * per_element if 'err' not in labs else -(-len(labs) // per_element) == iters
+        c.expect(full, rule, fd.key.split(':')[-1] + '/every-element-checked',
+                 '%d elements are iterated but %d checks (%d per element) are made on a path: some element is '
+                 'skipped without being checked' % (iters, len(labs), per_element), fd.loc())
         if 'err' in labs:
             halted = labs.index('err') == len(labs) - 1
             v = p.val if p.kind == 'return' else None
@@ -206,7 +208,13 @@ def check_first_error_wins(c: Check, rule: str, fd: FuncDef, is_elem_call, iter_
             ok = p.kind == 'return' and isinstance(p.val, K) and p.val.v is None
             c.expect(ok, rule, key, 'no element reported an error but the result is %s' % (
                 util.describe(p.val) if p.kind == 'return' else p.kind), fd.loc())
-    c.floor(rule, 'paths with element checks in ' + fd.key, n_with_calls, min_paths)
+    # the fold goes on after an element that passed: some path examines a second element
+    max_iters = max([len([e for e in p.trace if e.kind == 'loop-iter' and e.func is fd]) for p in paths] or [0])
+    c.expect(max_iters >= 2, rule, fd.key.split(':')[-1] + '/goes-on-after-a-passing-element',
+             'no path examines a second element: the result is decided by the first element alone, the following '
+             'ones are never checked', fd.loc())
+    if max_iters >= 2:
+        c.floor(rule, 'paths with element checks in ' + fd.key, n_with_calls, min_paths)
     loops = [n for n in walk_own(fd.node) if isinstance(n, ast.For)]
     for lp in loops:
         it = lp.iter
